@@ -4,7 +4,8 @@ from props import gen, rt
 ENGINE = 'genscan+mirfacts'
 EXPLANATION = ('On every generated lexer of the corpus (both code generators), per state: in the branch taken when the dispatch read hits the end of the buffer, the prefix guard '
                '`if lex.is_prefix() { lex.end(lex.offset()); return None }` is the first statement if and only if the state still has a continuation (a byte edge, a self loop or an end-of-input edge). '
-               'On MIR: is_prefix is true only from new_partial/partial_with_extras, copied by morph/clone, written nowhere else, and LexerInternal::is_prefix returns the field.')
+               'On MIR: is_prefix is true only from new_partial/partial_with_extras, copied by morph/clone, written nowhere else, and LexerInternal::is_prefix returns the field.'
+               ' Since the E5 engine (G20, kind withheld): for definitions whose matches do not depend on the next symbol, a reference state after which nothing longer can match corresponds to a graph state without any continuation, so a partial lexer yields the decided item at once.')
 
 
 def run(ctx, rep):
